@@ -411,11 +411,13 @@ func (vc *VC) applyContractEnv(st *State, v *ssa.Call, spec *FuncSpec, names []s
 			vc.oblige("nopanic.callee", label, vc.nopanicProps(), guard, not(q), "callee "+spec.Name+" does not panic", pos)
 		}
 	}
-	// frame
-	if !spec.Pure {
-		vc.applyModifies(st, spec, env, guard)
-	}
+	// frame (the modifies clause may mention the result, e.g. pooled[ifval(result)])
 	res := vc.freshResults(sig, "r")
+	if !spec.Pure {
+		menv := &Env{vc: vc, st: pre, old: pre, vars: map[string]Term{}, pkg: pkg, parent: env}
+		vc.bindResults(menv, sig, spec, res)
+		vc.applyModifies(st, spec, menv, guard)
+	}
 	post := &Env{vc: vc, st: st, old: pre, vars: env.vars, pkg: pkg}
 	vc.bindResults(post, sig, spec, res)
 	for _, c := range spec.clauses("ensures") {
@@ -716,11 +718,11 @@ func (vc *VC) applyModifies(st *State, spec *FuncSpec, env *Env, guard string) {
 }
 
 // frameObligations: every state variable the function wrote must be covered by its modifies clauses.
-func (vc *VC) frameObligations(st *State, guard string, pos token.Pos, kind string) {
+func (vc *VC) frameObligations(st *State, guard string, pos token.Pos, kind string, results []Term) {
 	if vc.spec.clauses("modifies") == nil && !vc.spec.Pure {
 		return
 	}
-	env := vc.selfEnv(vc.entry, nil)
+	env := vc.selfEnv(vc.entry, results)
 	targets, all := vc.modifiesTargets(vc.spec, env)
 	if all {
 		return
